@@ -2284,6 +2284,10 @@ fn estimate_tree_size<P: consensus::Parameters>(
                     named_params! {":shard_index": subtree_index},
                     |row| Ok(row.get::<_, Option<_>>(0)?.map(BlockHeight::from_u32)),
                 )
+                // The preceding subtree's root is absent if the caller's subtree roots did
+                // not start at index 0.
+                .optional()
+                .map(|end_height| end_height.flatten())
                 .transpose()
             })
             .transpose()?
